@@ -15,7 +15,7 @@ from . import c14
 
 RULE = ('pairs (A, B) of build-validate-serialise workloads (element + oracle-valid attributes + value + simple '
         'children) drawn from the oracle\'s type graph: same complex type / same element class / types sharing an '
-        'attribute group / unrelated control, plus a fixed panel of pairs; for each pair EVERY single-pre-emption '
+        'attribute group / unrelated control, plus a fixed panel of pairs (and, derived from the oracle, one pair per enumerated simple type that restricts another enumerated type: A offers the derived type a literal only the base allows, B offers it to the base type); for each pair EVERY single-pre-emption '
         'schedule is executed: thread A is stopped by a sys.settrace line hook at its k-th executed line inside the '
         'musicxml package (k = 1..N, N measured, ~2-4k), thread B runs to completion in the gap, A resumes.  Each '
         'schedule runs in a child forked from a fresh interpreter that has only imported the library, so the lazily '
@@ -44,6 +44,41 @@ PANEL = [
     ({'element': 'accent', 'value': None, 'attrs': {'placement': 'above'}},
      {'element': 'staccato', 'value': None, 'attrs': {'placement': 'below', 'color': '#000000'}}),
 ]
+
+
+def derived_enumeration_pairs():
+    """from the oracle: every enumerated simple type T that restricts another enumerated type B.  Thread A gives a user
+    of T a literal that only B allows (alone: the type's ValueError), thread B gives a user of B the same literal (valid).
+    Whatever shared table the two classes initialise lazily, A's verdict must not depend on B having run first."""
+    from ..oracle import lexical
+    s = schema()
+    out = []
+    for tn in sorted(lexical.all_simple_type_names()):
+        ti = lexical.info(tn)
+        if ti.enumeration is None or ti.union is not None or not ti.base or ti.base.startswith('xs:'):
+            continue
+        bi = lexical.info(ti.base)
+        extra = sorted(set(bi.enumeration or []) - set(ti.enumeration))
+        if not extra:
+            continue
+
+        def user(type_name, literal):
+            for el, t in sorted(s.element_type.items()):
+                if s.text_type(t) == type_name:
+                    return {'element': el, 'value': literal, 'attrs': {}}
+            for el, t in sorted(s.element_type.items()):
+                for a in s.attributes_of(t):
+                    if a['type'] == type_name:
+                        from ..driver import stub_value, py_name
+                        return {'element': el, 'value': stub_value(el), 'attrs': {py_name(a['qname'].split(':')[-1]): literal}}
+            return None
+        wa, wb = user(tn, extra[0]), user(ti.base, extra[0])
+        if wa and wb:
+            out.append((wa, wb))
+    return out
+
+
+PANEL += derived_enumeration_pairs()
 
 
 def run_pair(wa, wb, ks=None, max_k=None, offset=0, slice_=None, of=None):
